@@ -24,6 +24,7 @@ func init() {
 }
 
 func runC53(c *eng.Ctx) {
+	defer runC53Replay(c)
 	p := c.P
 	// ---- R1 no write primitive reachable from the read-only query paths ----
 	mutators := []string{
